@@ -126,6 +126,12 @@ def affinity_eval(case):
         st = dtw_cc.DTWSettings(window=case["window"] or 0, penalty=case["penalty"] or 0)
         full = np.empty((l1 + 1, l2 + 1))
         dtw_cc.wps_expand_slice(mk, full, l1, l2, 0, l1 + 1, 0, l2 + 1, st)
+        slices = []
+        for (rb, re_, cb, ce) in case.get("slices", []):
+            sl = np.empty((re_ - rb, ce - cb))
+            dtw_cc.wps_expand_slice(mk, sl, l1, l2, rb, re_, cb, ce, st)
+            slices.append(_hex_matrix(sl))
+        out["c_compact_slices"] = slices
         return _hex_matrix(full)
     guard("c_compact", compact)
 
